@@ -10,6 +10,7 @@ def processLine (st : St) (no : Nat) (line : String) : St × List String :=
       let got := (line.drop 2).trimAscii.toString
       let st := { st with pending := none }
       let (st, verdict) := commandObs st c
+      let st := applyTick st c got
       let kind := if c.op == "q" then "q." ++ c.arg 0 else if c.op == "enc" then "enc." ++ c.arg 0 else c.op
       let st := { st with kinds := st.kinds.insert kind (st.kinds.getD kind 0 + 1) }
       match d3Relaxed st c got with
